@@ -107,6 +107,35 @@ theorem source_id_discipline :
     Kit.Generated.C11.entryCarriesId = true ∧ Kit.Generated.C11.removalByIdFirstMatch = true ∧
     bufferSize = 10 := by decide
 
+/-- T1: the statement shapes of `Subscribe`, `subscribe` (with the forwarder goroutine and its
+deferred function), `Broadcast` and `Close` as `factgen_c11` prints them from the current source
+(hook points and comments removed) are the ones the LTS transcribes:
+* `Subscribe`: lock, deferred unlock, `subscribe` per channel — `subAcquire` (prefix registration);
+* `subscribe`: closed check, `id := currentID; currentID++`, 10-slot buffer, exit channel, entry
+  appended, `wg.Add(1)`, forwarder: outer select {ctx | closeCh | take} (`fwdExitCtx`,
+  `fwdExitClose`, `fwdTake`), inner select {ctx | closeCh | send} (`fwdExitCtx`, `fwdExitClose`,
+  `fwdDeliver`), deferred: close exit channel *then* lock, remove first entry with that id,
+  unlock, `wg.Done` (`fwdCloseExit`, `fwdRemove`);
+* `Broadcast`: lock, deferred unlock, closed check, per entry select {exit channel | send | closeCh}
+  (`bcAcquire`, `bcSkipExit`, `bcPush`, `bcSkipClose`, `bcFinish`);
+* `Close`: deferred `wg.Wait`, CAS + `close(closeCh)` *before* lock/unlock (`closeCas`,
+  `closeChClose`, `closePass`, `closeReturn`) — i.e. `Variant.fixed`.
+Any other source text makes this theorem false (or factgen fail): the tie is reported broken. -/
+theorem source_shape_as_modelled :
+    Kit.Generated.C11.subscribeApiBody =
+      ["b.lock.Lock()", "defer b.lock.Unlock()", "for _, c := range ch {b.subscribe(ctx, c)}"] ∧
+    Kit.Generated.C11.subscribeBody =
+      ["if b.closed.Load() {return}", "id := b.currentID", "b.currentID++",
+       "bufferedCh := make(chan T, bufferSize)", "closeEventCh := make(chan struct{})",
+       "b.eventChs = append(b.eventChs, &eventCh[T]{…})", "b.wg.Add(1)",
+       "go func{defer func{close(closeEventCh); b.lock.Lock(); for i, eventCh := range b.eventChs {if eventCh.id == id {b.eventChs = append(b.eventChs[:i], b.eventChs[i + 1:]...); break}}; b.lock.Unlock(); b.wg.Done()}; for {select{case <-ctx.Done(): return | case <-b.closeCh: return | case val := <-bufferedCh: select{case <-ctx.Done(): return | case <-b.closeCh: return | case ch <- val: }}}}"] ∧
+    Kit.Generated.C11.broadcastBody =
+      ["b.lock.Lock()", "defer b.lock.Unlock()", "if b.closed.Load() {return}",
+       "for _, ev := range b.eventChs {select{case <-ev.closeEventCh:  | case ev.ch <- value:  | case <-b.closeCh: }}"] ∧
+    Kit.Generated.C11.closeBody =
+      ["defer b.wg.Wait()", "if b.closed.CompareAndSwap(false, true) {close(b.closeCh)}",
+       "b.lock.Lock()", "b.lock.Unlock()"] := ⟨rfl, rfl, rfl, rfl⟩
+
 /-- `ids_fresh`: two different subscribers (slots) never carry the same id — in particular the id
 of a subscriber that is still subscribed is never given to a later subscriber — and every id handed
 out so far is below the counter `currentID`, which is what the next subscriber gets. -/
